@@ -76,6 +76,7 @@ def identity_rules(rep, ctx, mod, prefix=""):
     # an early `return 0` (nothing requested, nothing left) merges into the return as a constant incoming: such an incoming is fine when
     # no byte can have reached the caller's buffer on the way (no copy, no decoder run lies before it); the count proper is the other one
     ret_pred = rr[0].block.id
+    ways = None
     dX = fn.defn(X)
     if dX is not None and not dX.is_param and dX.op == "phi" and dX.block.id == rr[0].block.id:
         writers = {c.block.id for c in fn.insts() if c.op == "call" and ((c.callee or "").startswith("llvm.memcpy") or
@@ -94,69 +95,96 @@ def identity_rules(rep, ctx, mod, prefix=""):
         if len(proper) == 1:
             X = M.strip(proper[0][0], ())
             ret_pred = proper[0][1]
-    crcs = list(fn.calls("lha_crc16_buf"))
-    rep.check(rid, len(crcs) == 1, "exactly one CRC update per read", where, "%d calls" % len(crcs), function=fn.cname, obj="crc-calls")
-    for c in crcs:
-        rep.check(rid, M.match(("field", DEC, "crc", ("param", 0)), c.ops[0], {}) is not None, "CRC accumulator is &decoder->crc", c.where(), None,
-                  function=fn.cname, obj="crc-acc")
-        rep.check(rid, M.strip(c.ops[1], ("bitcast",)) == ("v", fn.params[1].id), "CRC is computed over the caller's buffer from offset 0", c.where(),
-                  describe(fn, c.ops[1]), function=fn.cname, obj="crc-buf")
-        rep.check(rid, c.ops[2] == X, "CRC'd byte count is the returned count", c.where(),
-                  "crc len = %s, returned = %s" % (describe(fn, c.ops[2]), describe(fn, X)), function=fn.cname, obj="crc-len")
-        # the CRC update lies on every path to the return
-        rep.check(rid, fn.dominates(c.block.id, ret_pred), "the CRC update dominates the return of the count", c.where(), None, function=fn.cname, obj="crc-dom")
-    sts = stores_to_field(mod, DEC, "stream_pos", [fn])
-    rep.check(rid, len(sts) == 1, "exactly one stream_pos update per read", where, "%d stores" % len(sts), function=fn.cname, obj="pos-stores")
-    for s in sts:
-        e = M.match(("bin", "add", dfield("stream_pos"), ("bind", "n")), s.ops[0], {})
-        rep.check(rid, e is not None and e["n"] == X, "stream_pos += returned count", s.where(), describe(fn, s.ops[0]), function=fn.cname, obj="pos-inc")
-        rep.check(rid, fn.dominates(s.block.id, ret_pred), "the position update dominates the return of the count", s.where(), None, function=fn.cname, obj="pos-dom")
+        elif len(proper) >= 2:
+            ways = [(M.strip(v_, ()), pb_) for v_, pb_ in proper]
+    # several ways to the return, each with its own count (a fast path next to the general loop): every rule below is then asked per way,
+    # of the updates that can reach that way's end
+    if ways is None:
+        ways = [(X, ret_pred)]
+    per_way = len(ways) > 1
+
+    def reaches(bid, pb):
+        return bid == pb or pb in blocks_reachable_from(fn, [bid])
+    all_crcs = list(fn.calls("lha_crc16_buf"))
+    all_sts = stores_to_field(mod, DEC, "stream_pos", [fn])
+    if not per_way:
+        rep.check(rid, len(all_crcs) == 1, "exactly one CRC update per read", where, "%d calls" % len(all_crcs), function=fn.cname, obj="crc-calls")
+        rep.check(rid, len(all_sts) == 1, "exactly one stream_pos update per read", where, "%d stores" % len(all_sts), function=fn.cname, obj="pos-stores")
+    for X, ret_pred in ways:
+        crcs = [c for c in all_crcs if reaches(c.block.id, ret_pred)] if per_way else all_crcs
+        sts = [s_ for s_ in all_sts if reaches(s_.block.id, ret_pred)] if per_way else all_sts
+        if per_way:
+            rep.check(rid, len(crcs) == 1, "exactly one CRC update on the way to the return from bb%d" % ret_pred, where, "%d calls" % len(crcs), function=fn.cname, obj="crc-calls")
+            rep.check(rid, len(sts) == 1, "exactly one stream_pos update on the way to the return from bb%d" % ret_pred, where, "%d stores" % len(sts), function=fn.cname, obj="pos-stores")
+        for c in crcs:
+            rep.check(rid, M.match(("field", DEC, "crc", ("param", 0)), c.ops[0], {}) is not None, "CRC accumulator is &decoder->crc", c.where(), None,
+                      function=fn.cname, obj="crc-acc")
+            rep.check(rid, M.strip(c.ops[1], ("bitcast",)) == ("v", fn.params[1].id), "CRC is computed over the caller's buffer from offset 0", c.where(),
+                      describe(fn, c.ops[1]), function=fn.cname, obj="crc-buf")
+            rep.check(rid, c.ops[2] == X, "CRC'd byte count is the returned count", c.where(),
+                      "crc len = %s, returned = %s" % (describe(fn, c.ops[2]), describe(fn, X)), function=fn.cname, obj="crc-len")
+            # the CRC update lies on every path to the return
+            rep.check(rid, fn.dominates(c.block.id, ret_pred), "the CRC update dominates the return of the count", c.where(), None, function=fn.cname, obj="crc-dom")
+        for s in sts:
+            e = M.match(("bin", "add", dfield("stream_pos"), ("bind", "n")), s.ops[0], {})
+            rep.check(rid, e is not None and e["n"] == X, "stream_pos += returned count", s.where(), describe(fn, s.ops[0]), function=fn.cname, obj="pos-inc")
+            rep.check(rid, fn.dominates(s.block.id, ret_pred), "the position update dominates the return of the count", s.where(), None, function=fn.cname, obj="pos-dom")
 
     # the returned count counts exactly the bytes copied into buf
     rid2 = rep.rule(prefix + "R1b", "the returned count is 0 plus the lengths of the memcpy's into buf + count", 2)
     copies = [c for c in fn.insts() if c.op == "call" and (c.callee or "").startswith("llvm.memcpy")]
-    rep.check(rid2, len(copies) == 1, "one copy into the caller's buffer per step", where, "%d memcpy calls" % len(copies), function=fn.cname, obj="copies")
-    okleaf = True
-    for s, fs in F.sources(X, through_casts=False):
-        if is_const(s):
-            if const_val(s) != 0:
-                okleaf = False
-                rep.violation(rid2, "count starts at 0", where, "constant %s" % const_val(s), function=fn.cname, obj="count-init")
-            else:
-                rep.ok(rid2, "count starts at 0", None, where)
+    all_copies = copies
+    runs_ = [c for c in fn.insts() if c.op == "call" and not c.callee and M.match(("load", ("field", "LHADecoderType", "read", ANY)), c.calleev, {}) is not None]
+    for X, ret_pred in ways:
+        copies = [c for c in all_copies if reaches(c.block.id, ret_pred)] if per_way else all_copies
+        rep.check(rid2, len(copies) == 1, "one copy into the caller's buffer per step" + (" (way to the return from bb%d)" % ret_pred if per_way else ""), where, "%d memcpy calls" % len(copies), function=fn.cname, obj="copies")
+        if per_way and len(copies) == 1 and not any(reaches(r_.block.id, ret_pred) for r_ in runs_) and not any(copies[0].block.id in lp_["body"] for lp_ in fn.loops()):
+            # a way that serves the request with one straight copy: n bytes to buf + 0, n returned
+            c_ = copies[0]
+            okd = M.strip(c_.ops[0], ("bitcast",)) == ("v", fn.params[1].id) and M.strip(c_.ops[2]) == M.strip(X) and fn.dominates(c_.block.id, ret_pred)
+            rep.check(rid2, okd, "direct way: the returned count is the length of the one copy to buf + 0", c_.where(), describe(fn, X), function=fn.cname, obj="direct-copy")
             continue
-        def step_ok(v, depth=0):
-            """v = f + n where n bytes were written at buf + f: by the memcpy, or by a run of the decoder writing straight into the
-            caller's buffer (its result, with at least max_read bytes of room left there), f being the loop-carried count or itself
-            such a step"""
-            e = M.match(("bin", "add", ("bind", "f"), ("bind", "n")), v, {})
-            if e is None or depth > 4 or e["f"][0] != "v":
+        okleaf = True
+        for s, fs in F.sources(X, through_casts=False):
+            if is_const(s):
+                if const_val(s) != 0:
+                    okleaf = False
+                    rep.violation(rid2, "count starts at 0", where, "constant %s" % const_val(s), function=fn.cname, obj="count-init")
+                else:
+                    rep.ok(rid2, "count starts at 0", None, where)
+                continue
+            def step_ok(v, depth=0):
+                """v = f + n where n bytes were written at buf + f: by the memcpy, or by a run of the decoder writing straight into the
+                caller's buffer (its result, with at least max_read bytes of room left there), f being the loop-carried count or itself
+                such a step"""
+                e = M.match(("bin", "add", ("bind", "f"), ("bind", "n")), v, {})
+                if e is None or depth > 4 or e["f"][0] != "v":
+                    return False
+                fd = fn.defn(e["f"])
+                if fd is None or fd.is_param or not (fd.op == "phi" or step_ok(e["f"], depth + 1)):
+                    return False
+                dv = fn.defn(v)
+                for c in copies:
+                    if M.match(("gep", ("param", 1), [("inst", e["f"][1])]), c.ops[0], {}) is not None and M.strip(c.ops[2]) == e["n"] \
+                            and fn.dominates(c.block.id, dv.block.id):
+                        return True
+                r = fn.defn(M.strip(e["n"]))
+                if r is not None and not r.is_param and r.op == "call" and not r.callee and len(r.ops) >= 2 and fn.dominates(r.block.id, dv.block.id) \
+                        and M.match(("gep", ("param", 1), [("inst", e["f"][1])]), r.ops[1], {}) is not None \
+                        and M.match(("load", ("field", "LHADecoderType", "read", ANY)), r.calleev, {}) is not None:
+                    # the room is measured against the loop's own limit (the clamped request: `count < limit` is the loop condition)
+                    limits = [M.strip(f_[2]) for f_ in F.at_inst(r) if f_[0] == "ult" and f_[2][0] == "v" and fn.defn(M.strip(f_[1])) is not None
+                              and getattr(fn.defn(M.strip(f_[1])), "op", "") == "phi"]
+                    mr = ("load", ("field", "LHADecoderType", "max_read", ANY))
+                    for L in limits:
+                        room = ("bin", "sub", ("inst", L[1]), ("inst", e["f"][1]))
+                        for f_ in F.at_inst(r):
+                            if (f_[0] == "uge" and M.match(room, f_[1], {}) is not None and M.match(mr, f_[2], {}) is not None) or \
+                                    (f_[0] == "ule" and M.match(mr, f_[1], {}) is not None and M.match(room, f_[2], {}) is not None):
+                                return True
                 return False
-            fd = fn.defn(e["f"])
-            if fd is None or fd.is_param or not (fd.op == "phi" or step_ok(e["f"], depth + 1)):
-                return False
-            dv = fn.defn(v)
-            for c in copies:
-                if M.match(("gep", ("param", 1), [("inst", e["f"][1])]), c.ops[0], {}) is not None and M.strip(c.ops[2]) == e["n"] \
-                        and fn.dominates(c.block.id, dv.block.id):
-                    return True
-            r = fn.defn(M.strip(e["n"]))
-            if r is not None and not r.is_param and r.op == "call" and not r.callee and len(r.ops) >= 2 and fn.dominates(r.block.id, dv.block.id) \
-                    and M.match(("gep", ("param", 1), [("inst", e["f"][1])]), r.ops[1], {}) is not None \
-                    and M.match(("load", ("field", "LHADecoderType", "read", ANY)), r.calleev, {}) is not None:
-                # the room is measured against the loop's own limit (the clamped request: `count < limit` is the loop condition)
-                limits = [M.strip(f_[2]) for f_ in F.at_inst(r) if f_[0] == "ult" and f_[2][0] == "v" and fn.defn(M.strip(f_[1])) is not None
-                          and getattr(fn.defn(M.strip(f_[1])), "op", "") == "phi"]
-                mr = ("load", ("field", "LHADecoderType", "max_read", ANY))
-                for L in limits:
-                    room = ("bin", "sub", ("inst", L[1]), ("inst", e["f"][1]))
-                    for f_ in F.at_inst(r):
-                        if (f_[0] == "uge" and M.match(room, f_[1], {}) is not None and M.match(mr, f_[2], {}) is not None) or \
-                                (f_[0] == "ule" and M.match(mr, f_[1], {}) is not None and M.match(room, f_[2], {}) is not None):
-                            return True
-            return False
-        rep.check(rid2, step_ok(s), "count update = count + bytes where memcpy(buf + count, ..., bytes) (or a decoder run into buf + count with max_read bytes of room)",
-                  fn.defn(s).where() if fn.defn(s) is not None and not fn.defn(s).is_param else where, describe(fn, s), function=fn.cname, obj="count-step")
+            rep.check(rid2, step_ok(s), "count update = count + bytes where memcpy(buf + count, ..., bytes) (or a decoder run into buf + count with max_read bytes of room)",
+                      fn.defn(s).where() if fn.defn(s) is not None and not fn.defn(s).is_param else where, describe(fn, s), function=fn.cname, obj="count-step")
     # a run of the decoder that delivers nothing ends the stream for good: the sticky failure flag is set on every path from there
     rid3 = rep.rule(prefix + "R1c", "every run of the decoder (dtype->read) whose result is 0 is followed by decoder_failed = 1 on every path to the return", 1)
     runs = [c for c in fn.insts() if c.op == "call" and not c.callee and M.match(("load", ("field", "LHADecoderType", "read", ANY)), c.calleev, {}) is not None]
@@ -182,7 +210,7 @@ def identity_rules(rep, ctx, mod, prefix=""):
             from ..mem import root
             if root(fn, i.ops[1])[:2] == ("param", 1):
                 rep.violation(rid2, "no other write into the caller's buffer", i.where(), "store", function=fn.cname, obj="buf-store")
-    return fn, X, copies
+    return fn, X, all_copies
 
 
 def run(tier, seed):
@@ -232,6 +260,20 @@ def run(tier, seed):
             rid = rep.rule("R2b", "each copy is bounded by the remaining request: bytes = min(outbuf_len - outbuf_pos, limit - count)", 2)
             for c in copies:
                 n = c.ops[2]
+                if len(copies) > 1 and M.strip(c.ops[0], ("bitcast",)) == ("v", fn.params[1].id) and not any(c.block.id in lp_["body"] for lp_ in fn.loops()):
+                    # a straight copy to buf + 0 outside the loop (fast path): it serves the whole clamped request, and only when that much is buffered
+                    avail = ("bin", "sub", dfield("outbuf_len"), dfield("outbuf_pos"))
+                    nn = M.strip(n)
+                    f_ = None
+                    if nn[0] == "v":
+                        f_, _ = M.find_fact(("ule", ("inst", nn[1]), avail), F.at_inst(c))
+                        if f_ is None:
+                            f_, _ = M.find_fact(("uge", avail, ("inst", nn[1])), F.at_inst(c))
+                    rep.check(rid, f_ is not None and lim is not None and nn == M.strip(lim), "direct copy: the whole clamped request, under request <= outbuf_len - outbuf_pos", c.where(),
+                              describe(fn, n), function=fn.cname, obj="direct-min")
+                    rep.check(rid, M.match(("gep", dfield("outbuf"), [dfield("outbuf_pos")]), c.ops[1], {}) is not None,
+                              "copy source is outbuf + outbuf_pos", c.where(), describe(fn, c.ops[1]), function=fn.cname, obj="src")
+                    continue
                 for s, fs in F.sources(n, through_casts=False):
                     e = M.match(("bin", "sub", ("inst", lim[1]) if lim and lim[0] == "v" else ANY, ("phi",)), s, {})
                     if e is not None:
@@ -258,7 +300,7 @@ def run(tier, seed):
                     okadv = e is not None and any(M.strip(c.ops[2]) == e["n"] and c.block.id == s.block.id for c in copies)
                     adv += 1 if okadv else 0
                     rep.check(rid, okadv, "outbuf_pos += bytes copied", s.where(), describe(fn, s.ops[0]), function=fn.cname, obj="advance")
-            rep.check(rid, adv == 1, "one cursor advance per copy", fn.file, None, function=fn.cname, obj="advance-count")
+            rep.check(rid, adv == len(copies), "one cursor advance per copy", fn.file, None, function=fn.cname, obj="advance-count")
             for ls in len_stores:
                 d = fn.defn(M.strip(ls.ops[0]))
                 okr = d is not None and not d.is_param and d.op == "call" and d.callee is None and \
